@@ -318,6 +318,8 @@ impl super::MainState {
                     // add new user to hash map
                     let user_state = &mut conn_state.user_state;
                     user_state.registered = registered;
+                    #[cfg(feature = "verif")]
+                    super::verif::window("auth").await;
                     let mut state = self.state.write().await;
                     let user = User::new(
                         &self.config,
@@ -474,6 +476,8 @@ impl super::MainState {
         if !conn_state.user_state.authenticated {
             if !self.state.read().await.users.contains_key(nick) {
                 conn_state.user_state.set_nick(nick.to_string());
+                #[cfg(feature = "verif")]
+                super::verif::window("nick").await;
                 // try authentication
                 self.authenticate(conn_state).await?;
             } else {
